@@ -43,10 +43,10 @@ ASSUMPTIONS = [
     "NOT asserted since the audit: limits are members of smooth_fa_freqs, limits are the first / last crossing of the whole grid, "
     "get_sig_array_indexes_range indexes get_sig_freq_range, the default smoothing grid is 50 points on [0.1, 30], real dtype of the "
     "result (a zero imaginary part is accepted), the number of Fourier bins (C06), purity of the arguments (C05)",
-    "candidate findings (reported, not in known_findings.json yet: while there is no entry the strict assertion is skipped and the case "
-    "labelled '<id>:pending'; an open entry routes through ctx.kf, a fixed entry makes it strict): C07-KF1 non-ascending smoothing "
-    "frequencies -> limits returned in array order (f_min > f_max); C07-KF2 gen_smooth_fa_spectrum(smooth_fa_freqs=<list / tuple>) "
-    "raises TypeError although the setters and the constructor coerce lists",
+    "repaired defects (known_findings.json, status fixed: the assertions are strict; the ids are kept for routing should an entry be "
+    "reopened): C07-KF1 non-ascending smoothing frequencies -> limits were returned in array order, f_min > f_max (repaired in /repo "
+    "512613e: smallest / largest smoothing frequency above the threshold); C07-KF2 gen_smooth_fa_spectrum(smooth_fa_freqs=<list / "
+    "tuple>) raised TypeError although the setters and the constructor coerce lists (repaired in /repo e2823b0)",
     "cold caches: in a hash-chosen half of the bandwidth / record-length cases a bandwidth function (hash-chosen among the four) is the "
     "first access to the smoothed spectrum of a fresh object / after a setter (band 40 then); the custom-matrix form runs on an object "
     "whose Fourier spectrum was never read in half of the `weights` and record-length cases",
@@ -439,8 +439,8 @@ def definition(case, ctx):
     elif setter == "ctor":
         asig = ctx.lib(s.make, smooth_fa_freqs=arg)
     else:
-        # the setters and the constructor accept lists / tuples; gen_smooth_fa_spectrum stores its argument as it is and the pinned
-        # library then raises TypeError for a list (candidate finding C07-KF2)
+        # the setters and the constructor accept lists / tuples; gen_smooth_fa_spectrum used to store its argument as it is and then
+        # raised TypeError for a list (C07-KF2, repaired in /repo e2823b0)
         t_arg = targets if (how == "ndarray" or _relaxed(ctx, "C07-KF2")) else arg
         ctx.lib(asig.gen_smooth_fa_spectrum, smooth_fa_freqs=t_arg, band=b)
         band_now = b
@@ -686,9 +686,9 @@ _KF_STATE = _kf_states()
 
 
 def _relaxed(ctx, kid):
-    """Candidate findings reported to the coordinator: while known_findings.json has no entry `kid` the strict assertion is
-    skipped and the case labelled '<kid>:pending' (the check is in place, the decision is not mine); with an open entry it is the
-    usual known-finding routing (ctx.kf); with a fixed entry the assertion is strict."""
+    """Routing of C07-KF1 / C07-KF2 (both repaired in /repo, status fixed in known_findings.json: the assertions are strict).
+    With an open entry it would be the usual known-finding routing (ctx.kf); only if the entry were missing altogether is the
+    assertion skipped and the case labelled '<kid>:pending'."""
     if _KF_STATE.get(kid) is None:
         ctx.cls(kid + ":pending")
         return True
@@ -702,8 +702,8 @@ def _bw_check(ctx, freqs, sm, fmin, fmax, lim, what):
     of frequency) has not.  NOT demanded (audit C07, section 4): that the limits are members of smooth_fa_freqs (an interpolated
     crossing is as good), that they are the first / last crossing of the whole grid (the contiguous band round the peak is as
     good).  1e-9 margin filter on every threshold comparison.
-    Smoothing frequencies in any order (quantifier: all target-frequency sets); on a non-ascending set the pinned library
-    returns the limits in array order (candidate finding C07-KF1)."""
+    Smoothing frequencies in any order (quantifier: all target-frequency sets); on a non-ascending set the library used to
+    return the limits in array order (C07-KF1, repaired in /repo 512613e)."""
     fmin, fmax = float(fmin), float(fmax)
     ascending = bool(np.all(np.diff(freqs) >= 0))
     if not ascending:
@@ -752,7 +752,7 @@ def _bw_check(ctx, freqs, sm, fmin, fmax, lim, what):
                "the next smoothing frequency beyond it has not (docstring, 1e-9 margin filter); calc_bandwidth_freqs == "
                "(calc_bandwidth_f_min, calc_bandwidth_f_max); value of a first-access call == value afterwards; "
                "get_sig_freq_range(1/ratio) identical for ratio = 2^-k; get_sig_array_indexes_range ordered and bracketing the peak; a "
-               "lower threshold never narrows the band; non-ascending sets: candidate finding C07-KF1",
+               "lower threshold never narrows the band; non-ascending sets included (C07-KF1, repaired)",
         require={"mode=default": 0.1, "mode=targets": 0.2, "mode=range": 0.05, "interior-limit": 0.2, "cold-cache": 0.3},
         min_nontrivial=0.2)
 def bandwidth(case, ctx):
